@@ -7,6 +7,7 @@ import Driver.Pfn
 import Driver.Err
 import Driver.Flat
 import Driver.Derived
+import Driver.Xen
 
 def main (args : List String) : IO UInt32 := do
   let stdin ← IO.getStdin
@@ -20,4 +21,5 @@ def main (args : List String) : IO UInt32 := do
   | ["err"] => Driver.Err.run stdin; return 0
   | ["flat"] => Driver.Flat.run stdin; return 0
   | ["derived"] => Driver.Derived.run stdin; return 0
+  | ["xen"] => Driver.Xen.run stdin; return 0
   | _ => IO.eprintln "usage: kdfdrv <stream>"; return 2
